@@ -186,7 +186,14 @@ class RemoveImportsTransformer(CSTTransformer):
             module_name = name.evaluated_name
             found = False
             for import_item in self.import_items_to_be_removed:
-                if import_item.module_name == module_name:
+                # Only `import x [as y]` items match an `import x [as y]`
+                # statement; a moved `from x import name` must not delete
+                # the source's own `import x`
+                if (
+                    import_item.module_name == module_name
+                    and import_item.obj_name is None
+                    and import_item.alias == name.evaluated_alias
+                ):
                     found = True
                     break
             if not found:
@@ -214,6 +221,7 @@ class RemoveImportsTransformer(CSTTransformer):
                 if (
                     import_item.module_name == module_name
                     and import_item.obj_name == name_value
+                    and import_item.alias == name.evaluated_alias
                 ):
                     found = True
                     break
